@@ -33,8 +33,16 @@ def run_jobs(root, jobs, workers=12, timeout=900):
         jp = os.path.join(d, f"j{k}.json")
         json.dump(job, open(jp, "w"))
         try:
-            p = subprocess.run([PY, "-m", "harness.runtrace", jp], cwd=VERIF, env=env, capture_output=True, text=True,
-                               timeout=timeout)
+            # own session: on a time-out (deadlock) the whole process group, worker processes included, is killed
+            proc = subprocess.Popen([PY, "-m", "harness.runtrace", jp], cwd=VERIF, env=env, stdout=subprocess.DEVNULL,
+                                    stderr=subprocess.DEVNULL, start_new_session=True)
+            try:
+                proc.wait(timeout=job.get("timeout", timeout))
+            except subprocess.TimeoutExpired:
+                import signal
+                os.killpg(proc.pid, signal.SIGKILL)
+                proc.wait()
+                raise
             tr = pickle.load(open(job["out"], "rb"))
             os.unlink(job["out"])
         except subprocess.TimeoutExpired:
